@@ -69,6 +69,7 @@ type vThread struct {
 	status   int // under env.mu
 	gate     int
 	spinning int32
+	cur      vOp // the operation in progress (read by callbacks of this goroutine)
 	results  [][2]int
 	held     []int
 }
@@ -120,6 +121,23 @@ func (e *vEnv) self() int {
 		return t
 	}
 	return 999
+}
+
+// selfThread returns the driver thread of the calling goroutine (nil for the controller).
+func (e *vEnv) selfThread() *vThread {
+	t := e.self()
+	e.mu.Lock()
+	defer e.mu.Unlock()
+	if t >= 0 && t < len(e.threads) {
+		return e.threads[t]
+	}
+	return nil
+}
+
+func (e *vEnv) curOp(th *vThread) vOp {
+	e.mu.Lock()
+	defer e.mu.Unlock()
+	return th.cur
 }
 
 func (e *vEnv) gateCh(g int) chan struct{} {
@@ -311,17 +329,27 @@ func vRun(c *vCase) any {
 	switch c.Prim {
 	case "sf":
 		g := NewSingleFlight()
-		exec = func(th *vThread, op vOp) [2]int {
+		exec = func(th *vThread, op vOp) (res [2]int) {
 			executed := 0
 			fn := func() (any, error) {
 				executed = 1
 				env.log(th.id, kBegin, 0, op.A, 0, 0)
 				env.waitGate(th, op.B)
+				if op.C == 0 { // scripted panic of the user function
+					env.log(th.id, kEnd, 0, op.A, 0, 1)
+					panic("verif: fn panics")
+				}
 				env.log(th.id, kEnd, 0, op.A, op.C, 0)
 				return op.C, nil
 			}
 			key := "k" + strconv.Itoa(op.A)
 			env.log(th.id, kInv, 0, op.A, 0, 0)
+			defer func() {
+				if p := recover(); p != nil {
+					env.log(th.id, kRet, 0, op.A, 0, 2)
+					res = [2]int{2, 0}
+				}
+			}()
 			var v any
 			flag := 0
 			if op.Code == 0 {
@@ -343,16 +371,26 @@ func vRun(c *vCase) any {
 		}
 	case "lc":
 		g := NewLockedCalls()
-		exec = func(th *vThread, op vOp) [2]int {
+		exec = func(th *vThread, op vOp) (res [2]int) {
 			executed := 0
 			fn := func() (any, error) {
 				executed++
 				env.log(th.id, kBegin, 1, op.A, 0, 0)
 				env.waitGate(th, op.B)
+				if op.C == 0 {
+					env.log(th.id, kEnd, 1, op.A, 0, 1)
+					panic("verif: fn panics")
+				}
 				env.log(th.id, kEnd, 1, op.A, op.C, 0)
 				return op.C, nil
 			}
 			env.log(th.id, kInv, 1, op.A, 0, 0)
+			defer func() {
+				if p := recover(); p != nil {
+					env.log(th.id, kRet, 1, op.A, 0, 2)
+					res = [2]int{2, 0}
+				}
+			}()
 			v, _ := g.Do("k"+strconv.Itoa(op.A), fn)
 			val, _ := v.(int)
 			env.log(th.id, kRet, 1, op.A, val, executed)
@@ -386,14 +424,31 @@ func vRun(c *vCase) any {
 		var r *RefResource
 		ran := map[int]bool{}
 		r = NewRefResource(func() {
-			t := env.self()
+			th := env.selfThread()
+			if th == nil {
+				return
+			}
+			cur := env.curOp(th)
 			env.mu.Lock()
-			ran[t] = true
+			ran[th.id] = true
 			env.mu.Unlock()
+			env.log(th.id, kBegin, 1, 0, 0, 0)
+			env.waitGate(th, cur.B) // other goroutines now run into r.lock
+			if cur.A != 0 {
+				env.log(th.id, kEnd, 1, 0, 0, 1)
+				panic("verif: clean panics")
+			}
+			env.log(th.id, kEnd, 1, 0, 0, 0)
 		})
-		exec = func(th *vThread, op vOp) [2]int {
-			env.log(th.id, kInv, op.Code, 0, 0, 0)
+		exec = func(th *vThread, op vOp) (out [2]int) {
+			env.log(th.id, kInv, op.Code, op.A, op.B, 0)
 			res := 0
+			defer func() {
+				if p := recover(); p != nil {
+					env.log(th.id, kRet, op.Code, 2, 0, 0)
+					out = [2]int{2, 0}
+				}
+			}()
 			if op.Code == 0 {
 				if err := r.Use(); err == ErrUseOfCleaned {
 					res = 1
@@ -481,11 +536,32 @@ func vRun(c *vCase) any {
 			opts = append(opts, WithMaxAge(time.Duration(c.M)*time.Millisecond))
 		}
 		p := NewPool(c.N, func() any {
+			th := env.selfThread()
+			var cur vOp
+			t := 999
+			if th != nil {
+				cur, t = env.curOp(th), th.id
+				env.waitGate(th, cur.B) // other goroutines now run into p.lock
+			}
+			if cur.A != 0 {
+				env.log(t, kBegin, 3, 0, nowMs(), 1)
+				panic("verif: create panics")
+			}
 			id := int(atomic.AddInt32(&nextID, 1))
-			env.log(env.self(), kBegin, 3, id, nowMs(), 0)
+			env.log(t, kBegin, 3, id, nowMs(), 0)
 			return id
 		}, func(x any) {
-			env.log(env.self(), kEnd, 3, x.(int), nowMs(), 0)
+			th := env.selfThread()
+			var cur vOp
+			t := 999
+			if th != nil {
+				cur, t = env.curOp(th), th.id
+			}
+			if cur.Code == 0 && cur.C != 0 {
+				env.log(t, kEnd, 3, x.(int), nowMs(), 1)
+				panic("verif: destroy panics")
+			}
+			env.log(t, kEnd, 3, x.(int), nowMs(), 0)
 		}, opts...)
 		var heldMu sync.Mutex
 		put := func(t int, id int) {
@@ -493,9 +569,15 @@ func vRun(c *vCase) any {
 			p.Put(id)
 			env.log(t, kRet, 1, 0, nowMs(), 0)
 		}
-		exec = func(th *vThread, op vOp) [2]int {
+		exec = func(th *vThread, op vOp) (res [2]int) {
 			if op.Code == 0 {
 				env.log(th.id, kInv, 0, 0, nowMs(), 0)
+				defer func() {
+					if pv := recover(); pv != nil {
+						env.log(th.id, kRet, 0, 0, nowMs(), 2)
+						res = [2]int{0, 2}
+					}
+				}()
 				id := p.Get().(int)
 				heldMu.Lock()
 				th.held = append(th.held, id)
@@ -553,9 +635,13 @@ func vRun(c *vCase) any {
 			r, err := m.Get("k"+strconv.Itoa(op.A), func() (io.Closer, error) {
 				env.log(th.id, kBegin, 0, op.A, 0, 0)
 				env.waitGate(th, op.B)
-				if op.C != 0 {
+				if op.C == 1 {
 					env.log(th.id, kEnd, 0, op.A, 0, 1)
 					return nil, errVerifCreate
+				}
+				if op.C >= 2 {
+					env.log(th.id, kEnd, 0, op.A, 0, 2)
+					panic("verif: create panics")
 				}
 				id := int(atomic.AddInt32(&nextID, 1))
 				env.log(th.id, kEnd, 0, op.A, id, 0)
@@ -652,6 +738,9 @@ func vRun(c *vCase) any {
 						return
 					}
 				}
+				env.mu.Lock()
+				th.cur = op
+				env.mu.Unlock()
 				var res [2]int
 				func() {
 					defer func() {
@@ -754,7 +843,20 @@ func vRun(c *vCase) any {
 		if busy == 0 {
 			break
 		}
-		if drain == nil || !drain() {
+		drained := false
+		if drain != nil {
+			// the controller must not hang on a lock that a panicking callback left locked
+			ch := make(chan bool, 1)
+			go func() { ch <- drain() }()
+			select {
+			case drained = <-ch:
+			case <-time.After(2 * time.Second):
+				env.mu.Lock()
+				env.aborted = true
+				env.mu.Unlock()
+			}
+		}
+		if !drained {
 			env.mu.Lock()
 			env.stuck = busy
 			env.mu.Unlock()
